@@ -267,7 +267,14 @@ OnRtu ==
      ELSE Ev.tx = RtuFrame(Ev.cfg.unit, <<3, 4, 0, 0, 0, 0>>)
   /\ UNCHANGED <<kind, cur, db>> /\ Step
 
-TraceNext == OnRtu \/ OnDecode \/ OnRetry \/ OnQCall \/ OnQCb \/ OnQEnd \/ OnCfg \/ OnEndScenario \/ OnWr \/ OnCreate \/ OnState \/ OnCallOther \/ OnReq \/ OnCall \/ OnWire \/ OnCb
+\* the database is ONE map per type: of two transactions that add the same absent index at the same instant exactly one
+\* succeeds, and what is stored is what that one added (a transaction never works on a private copy)
+OnAddRace ==
+  /\ Is("db_add_race") /\ kind = "db_add_race"
+  /\ Ev.both_added = 0 /\ Ev.none_added = 0 /\ Ev.stored_is_not_the_winners = 0 /\ Ev.rounds >= 1
+  /\ UNCHANGED <<kind, cur, db>> /\ Step
+
+TraceNext == OnAddRace \/ OnRtu \/ OnDecode \/ OnRetry \/ OnQCall \/ OnQCb \/ OnQEnd \/ OnCfg \/ OnEndScenario \/ OnWr \/ OnCreate \/ OnState \/ OnCallOther \/ OnReq \/ OnCall \/ OnWire \/ OnCb
              \/ OnReqEnd \/ OnTxn \/ OnTxnEnd \/ OnDbOp \/ OnDbRead \/ OnStress
 
 TraceSpec == TraceInit /\ [][TraceNext]_vars
